@@ -232,6 +232,9 @@ def run_subprocess(spec, cfg, workdir, result_file=None, side=None, faults=None,
     if os.path.exists(op): os.remove(op)
     with open(ip, "w") as f: json.dump({"spec": spec, "cfg": list(cfg), "result_file": result_file, "side": side, "faults": faults, "only_triple": only_triple, "pre": pre}, f)
     errp = os.path.join(workdir, "stderr.txt")
+    # the deadline is a watchdog, not a verdict: stretch it when the machine is oversubscribed
+    try: timeout = timeout * max(1.0, 2.0 * os.getloadavg()[0] / (os.cpu_count() or 1))
+    except OSError: pass
     with open(errp, "w") as ef:
         proc = subprocess.Popen([sys.executable, "-W", "ignore", "-m", "vf.expkit", ip, op], stdout=ef, stderr=ef, stdin=subprocess.DEVNULL, start_new_session=True)
         try: proc.wait(timeout=timeout)
